@@ -58,6 +58,7 @@ type sreader struct {
 	Reads          int
 	Closes         int
 	ReadAfterClose int
+	CloseFailed    int  // Close calls that returned an error
 	Delivered      int  // non-EOF errors returned by Read
 	WithData       int  // ... of which together with at least one byte
 	Lost           bool // the stream ended (modeEOF) before all bytes were delivered
@@ -175,6 +176,7 @@ func (r *sreader) Read(p []byte) (int, error) {
 func (r *sreader) Close() error {
 	r.Closes++
 	if r.CloseFaults && r.C != nil && r.C.Choose(r.Name+".Close", 2) == 1 {
+		r.CloseFailed++
 		return errCloseFailed
 	}
 	return nil
@@ -196,6 +198,7 @@ type swriter struct {
 	Writes          int
 	Closes          int
 	WriteAfterClose int
+	CloseFailed     int // Close calls that returned an error
 	Delivered       int // errors returned by Write
 	Short           int // ... of which after accepting some but not all bytes
 	sticky          error
@@ -252,6 +255,7 @@ func (w *swriter) Write(p []byte) (int, error) {
 func (w *swriter) Close() error {
 	w.Closes++
 	if w.CloseFaults && w.C != nil && w.C.Choose(w.Name+".Close", 2) == 1 {
+		w.CloseFailed++
 		return errCloseFailed
 	}
 	return nil
